@@ -2,6 +2,7 @@
 import ast
 import copy
 import re
+import threading
 from typing import List, Tuple, Union, cast
 
 from func_adl.ast.call_stack import argument_stack, stack_frame
@@ -22,13 +23,17 @@ from func_adl.util_ast import (
 )
 
 argument_var_counter = 0
+# The counter is shared by every thread that simplifies a query: read-and-advance as one step,
+# or a thread switch in the middle hands a name out twice.
+_argument_var_lock = threading.Lock()
 
 
 def arg_name():
     "Return a unique name that can be used as an argument"
     global argument_var_counter
-    n = "arg_{0}".format(argument_var_counter)
-    argument_var_counter += 1
+    with _argument_var_lock:
+        n = "arg_{0}".format(argument_var_counter)
+        argument_var_counter += 1
     return n
 
 
@@ -41,7 +46,8 @@ def reserve_arg_names(a: ast.AST):
         name = n.id if isinstance(n, ast.Name) else n.arg if isinstance(n, ast.arg) else None
         m = re.fullmatch(r"arg_(\d+)", name) if name is not None else None
         if m is not None:
-            argument_var_counter = max(argument_var_counter, int(m.group(1)) + 1)
+            with _argument_var_lock:
+                argument_var_counter = max(argument_var_counter, int(m.group(1)) + 1)
 
 
 def make_args_unique(a: ast.Lambda) -> ast.Lambda:
